@@ -84,7 +84,8 @@ PROPS = {
               "sources, every emitted list, returned LLRs) and the final verdict/word/iterations against the textbook reference, plus the buffer model against the "
               "reference; non-trivial = at least one full iteration executed; distinct = distinct canonical input. Exactness clause: 400 (6000 thorough) random "
               "forests (3-12 bits, checks of weight 2-4 joining distinct components) x the 8 exact sum-product names (Phi/Tanh, f64/f32, flooding/HL), random-sign "
-              "LLRs of magnitude 0.25-6, limits 1-20: the driver runs the ideal arithmetic (lean/LdpcV/Model/ArithIdeal.lean at Float) through the same textbook "
+              "LLRs of magnitude 0.25-6 (f32 names: 0.25-3, below every saturation; a third of the Tanhf64 cases 8-30, where the reference is the tanh rule WITH its "
+              "clamp), limits 1-20; a third of the trace cases run one or two earlier decodes on the same traced decoder object first: the driver runs the ideal arithmetic (lean/LdpcV/Model/ArithIdeal.lean at Float) through the same textbook "
               "schedules, checks its LLRs after ncols iterations against the brute-force posterior over all codewords (1e-6), and compares the implementation's "
               "verdict/word/iterations with the ideal schedule's whenever every hard decision on the way is outside the rounding margin (1e-7 f64, 1e-2 f32; "
               "count of non-compared cases in correspondence.not_compared)"),
